@@ -117,6 +117,61 @@ fn send_plan(natt: usize, mask_bits: u32, max_len: usize) {
     crate::reach_end!();
 }
 
+/// C15 (sending side): `n` attachments (clones of one sender); message of `len` bytes with the
+/// reported send-buffer size 64 (first fragment 24); optionally the first attempt is refused with
+/// ENOBUFS (only possible for > 2000 bytes, so that variant reports 8192 and sends 3000 bytes).
+/// Whatever `send` answers, no header packet may carry more descriptors than the receiver's control
+/// buffer takes (64 — the capacity `many_*` establish on the receiving side), and `Ok` means the
+/// whole message went out.
+pub fn send_many(n: usize, len: usize, sb: u32, mask: u32) {
+    env::link();
+    env::set_sndbuf(sb);
+    env::set_record_only(true);
+    let _ = OsIpcSender::get_max_fragment_size();
+    let (tx, rx) = platform::channel().unwrap();
+    let (atx, arx) = platform::channel().unwrap();
+    let mut chans = Vec::new();
+    let mut i = 0;
+    while i < n {
+        chans.push(OsIpcChannel::Sender(atx.clone()));
+        i += 1;
+    }
+    let data = env::data_buf(len);
+    env::set_enobufs_mask(mask);
+    let r = tx.send(data, chans, vec![]);
+    let cnt = env::att_count();
+    let mut i = 0;
+    let mut delivered = 0usize;
+    let mut header_ok = false;
+    while i < cnt {
+        let a = env::att(i);
+        if a.has_hdr {
+            assert!(a.nfds <= 64, "C15: a header packet carries more descriptors than the receiver can take");
+            if a.ok {
+                header_ok = true;
+                assert!(a.nfds == n + if a.len < len { 1 } else { 0 }, "C15: accepted message does not carry all attachments");
+            }
+        }
+        if a.ok {
+            delivered += a.len;
+        }
+        i += 1;
+    }
+    if r.is_ok() {
+        assert!(header_ok && delivered == len, "C15: send reported success for an incomplete message");
+    }
+    crate::witness!(r.is_ok(), "WITNESS:REACH_OK");
+    crate::witness!(r.is_err(), "WITNESS:REACH_ERR");
+    // the channel remains usable for other messages
+    env::set_enobufs_mask(0);
+    let r2 = tx.send(&[1u8], vec![], vec![]);
+    assert!(r2.is_ok() && env::att_count() == 1 && env::att(0).ok && env::att(0).nfds == 0, "C15: channel unusable after a refused message");
+    core::mem::forget((r, r2));
+    drop((tx, rx, atx, arx));
+    assert!(env::nopen() == 0 && !env::bad_close(), "C11: ledger after send");
+    crate::reach_end!();
+}
+
 harnesses! {
     // no refusals: all lengths and buffer sizes, up to 8 packets
     #[unwind(12)] fn send_plan_noatt_nofault() { send_plan(0, 0, 1 << 26) }
